@@ -790,7 +790,11 @@ func (r *Run) outKind(j *JobRec, p, name, content string) (string, bool) {
 	}
 	ext := func() string {
 		// data that existed before the pipestance, outside it (not a stage effect)
+		// (half of them in a directory whose path merely begins like the pipestance's)
 		d := path.Join(r.Root, "ext")
+		if hash64(j.Key(), j.Phase, name, "extdir")%2 == 0 {
+			d = r.PsDir + "_archive"
+		}
 		os.MkdirAll(d, 0755)
 		ep := path.Join(d, fmt.Sprintf("ext_%x", hash64(j.Key(), j.Phase, name)))
 		os.WriteFile(ep, []byte(content), 0644)
